@@ -2,18 +2,20 @@
 import SuppModel.Den.Lemmas2
 namespace SuppModel.Den
 
-/-- handler chains occur only as the handler part of a `tryx` (and `hnil` only at the end of a chain) -/
+/-- handler chains occur only as the handler part of a `tryx` (and `hnil` only at the end of a chain), for-targets are
+    bindings, no binding of a name declared `global`, no comprehension (C01_visible does not cover reads inside them) -/
 def wf : Stmt → Bool
   | .hnil => false
   | .hcons _ _ _ _ => false
+  | .gbind _ _ => false
   | .seq s t => wf s && wf t
   | .ite c a b => wf c && wf a && wf b
   | .while_ c b e => wf c && wf b && wf e
-  | .for_ it tg b e => wf it && wf tg && wf b && wf e
+  | .for_ it tg b e => wf it && isBinds tg && wf tg && wf b && wf e
   | .tryx _ _ b hs e => wf b && isHcons hs && wfH hs && wf e
   | .fin s f => wf s && wf f
-  | .comp it g => wf it && wf g
-  | .cfor tg ifs inner => wf tg && wf ifs && wf inner
+  | .comp _ _ => false
+  | .cfor _ _ _ => false
   | .def_ pre _ _ _ _ => wf pre
   | .lam pre _ _ => wf pre
   | .cls pre _ _ _ => wf pre
@@ -50,7 +52,7 @@ theorem pass_or_gen (x : Ident) (s : Stmt) :
   | for_ it tg b e ihi iht ihb ihe =>
       refine ⟨fun h => ?_, by simp [isHcons]⟩
       simp only [wf, Bool.and_eq_true] at h
-      have k1 := ihi.1 h.1.1.1; have k2 := iht.1 h.1.1.2; have k3 := ihb.1 h.1.2; have k4 := ihe.1 h.2
+      have k1 := ihi.1 h.1.1.1.1; have k2 := iht.1 h.1.1.2; have k3 := ihb.1 h.1.2; have k4 := ihe.1 h.2
       simp only [pass, gen]; grind
   | tryx r1 r2 b hs e ihb ihh ihe =>
       refine ⟨fun h => ?_, by simp [isHcons]⟩
@@ -68,16 +70,8 @@ theorem pass_or_gen (x : Ident) (s : Stmt) :
       simp only [wf, Bool.and_eq_true] at h
       have a := ihs.1 h.1; have b := ihf.1 h.2
       simp only [pass, gen]; grind
-  | comp it g ihi ihg =>
-      refine ⟨fun h => ?_, by simp [isHcons]⟩
-      simp only [wf, Bool.and_eq_true] at h
-      have a := ihi.1 h.1
-      simp only [pass, gen]; grind
-  | cfor tg ifs inner iht ihf ihn =>
-      refine ⟨fun h => ?_, by simp [isHcons]⟩
-      simp only [wf, Bool.and_eq_true] at h
-      have k1 := iht.1 h.1.1; have k2 := ihf.1 h.1.2; have k3 := ihn.1 h.2
-      simp only [pass, gen]; grind
+  | comp it g ihi ihg => simp [wf, wf.wfH]
+  | cfor tg ifs inner iht ihf ihn => simp [wf, wf.wfH]
   | def_ pre f d ps body ihp _ _ =>
       refine ⟨fun h => ?_, by simp [isHcons]⟩
       simp only [wf] at h
